@@ -25,10 +25,8 @@ open Panqec.Lat2D Panqec.Color
 open Panqec.Color488Code (emod_diff)
 open Panqec.Color666PlanarCode (length_both)
 
-def selFaces (L : Nat) : List Coord := (faces L L).filter fun c => c != [2, 2] && c != [5, 4]
-
-/-- the selected stabilizer locations -/
-def sel (L : Nat) : List Coord := both (selFaces L)
+/-! `selFaces`, `sel` (the selected stabilizer locations): defined in
+    `Model/Lattices/Color666ToricCode.lean` (linked into the driver, op `rankfamily`) -/
 
 theorem mem_sel {L : Nat} {s : Coord} :
     s ∈ sel L ↔ ∃ x y p, s = [x, y, p] ∧ IsF L x y ∧ ¬ (x = 2 ∧ y = 2) ∧ ¬ (x = 5 ∧ y = 4) ∧
